@@ -38,6 +38,8 @@ MAP = {
  "C09": [("Tee", ["tee_inv", "tee_prefix", "tee_complete", "tee_mutex", "tee_source_closed", "tee_needs_guard_refuted", "tee_no_deadlock"])],
  "C11": [("LruConc", ["size_bounded_conc", "keys_unique_conc", "values_genuine", "stats_conc", "misses_le_invocations", "stats_conc_with_clear_refuted",
                       "failed_or_cancelled_stores_nothing", "conc_quiesces_to_seq", "conc_quiesces_to_seq_reachable"])],
+ "C15": [("Decorator", ["call_projection", "call_projection_general", "cancelled_in_enter", "cancelled_in_body", "fresh_generators", "one_generator_per_call",
+                       "projection_independent", "actions_commute", "sequential_calls", "sequential_calls_generator_based"])],
  "C06": [("RegularTools", ["fault_transparent", "fault_outcome", "fault_prefix", "run_tool_regular"])],
  "C18": [("RegularTools", ["fault_transparent", "run_tool_regular"]), ("ReleaseAll", ["tool_releases", "tool_releases_closed"])],
 }
